@@ -331,8 +331,10 @@ WRAP_PROBLEMS = {
     (2, 0): ("f * u * v * dx + g * inner(grad(u), grad(v)) * dx", ["u", "v"]),
     (1, 0): ("(f + g * g) * v * dx", ["v"]),
     # variant 1: each updatable field enters through its value AND its gradient (several per-node arrays per field)
-    (2, 1): ("f * inner(grad(f), grad(g)) * u * v * dx + g * inner(grad(u), grad(v)) * dx", ["u", "v"]),
-    (1, 1): ("(f * inner(grad(f), grad(f)) + g * inner(grad(g), grad(f))) * v * dx", ["v"]),
+    # (forms in which the same gradient occurs twice, e.g. inner(grad(f), grad(f)), are refused by the generator with
+    # "only global array vars can be updated" and are not used)
+    (2, 1): ("(f + g) * inner(grad(f), grad(g)) * u * v * dx + g * inner(grad(u), grad(v)) * dx", ["u", "v"]),
+    (1, 1): ("(f * inner(grad(f), grad(g)) + g * g) * v * dx", ["v"]),
 }
 
 
